@@ -3,6 +3,7 @@
 //! Common parameters
 //!   <fault>   `-` | index of the device operation that fails
 //!   <chunks>  `-` | `7,1,300`  chunk schedule for short transfers (Dev::with_chunks; implementation only)
+//!             | `cap<n>` | `7,1,300/cap<n>`  a device of fixed capacity n bytes: writes behind it return Ok(0)
 //!   <flags>   `-` | comma separated: nofin (drop the writer without the top-level finalize),
 //!             stop (stop after the first call that returns an error or panics), log (print the write log),
 //!             dump (print the device bytes), finx (the implicit last finalize goes through
@@ -45,7 +46,12 @@ fn fault_of(s: &str) -> Option<u64> {
     }
 }
 
+fn cap_of(s: &str) -> Option<u64> {
+    s.split('/').find_map(|x| x.strip_prefix("cap")).map(|x| x.parse().unwrap())
+}
+
 fn chunks_of(s: &str) -> Vec<usize> {
+    let s = s.split('/').find(|x| !x.starts_with("cap")).unwrap_or("-");
     if s == "-" {
         Vec::new()
     } else {
@@ -158,11 +164,12 @@ fn trailer(dev: &Dev, finops: Option<u64>, logmark: Option<usize>, finlog: Optio
 fn run_cwlog(toks: &[&str]) -> String {
     let fault = fault_of(toks[0]);
     let chunks = chunks_of(toks[1]);
+    let cap = cap_of(toks[1]);
     let flags: Vec<&str> = toks[2].split(',').collect();
     let nofin = flags.contains(&"nofin") || flags.contains(&"xfin");
     let finx = flags.contains(&"finx");
     let stop = flags.contains(&"stop");
-    let dev = Dev::new(Vec::new(), fault).with_chunks(chunks);
+    let dev = Dev::new(Vec::new(), fault).with_chunks(chunks).with_capacity(cap);
     let w = guard(|| E57Writer::new(dev.clone(), "file-guid"));
     let mut w = match w {
         None => return format!("new:P | {}", trailer(&dev, None, None, None, &[], &flags, "")),
